@@ -348,6 +348,17 @@ Definition idx_ref (inp : list byte) (node_id : N) (c : code) : res (N * list by
 Definition lsm_lookup (slm : list N) (level : N) : res N :=
   match find_index (N.eqb level) slm 0 with Some i => Ok i | None => Err EInternal end.
 
+(** [import_bin]: the second [match var_code] (resolution of the variable once the
+    children's levels are known) *)
+Definition resolve_vid (slm : list N) (nlevels : N) (vc : code) (vid t_level e_level : N) : res N :=
+  match vc with
+  | CAbsolute => if N.of_nat (length slm) <=? vid then Err EVarRange else Ok vid
+  | _ =>
+    let min_level := N.min t_level e_level in
+    cms <- (if min_level =? level_max then Ok nlevels else lsm_lookup slm min_level) ;;
+    if cms <? vid then Err EVarRange else Ok (cms - vid)
+  end.
+
 (** one iteration of the node loop of [import_bin] *)
 Definition import_bin_node (k : kind) (slm : list N) (nlevels : N) (terminal : cedge)
            (st : ist) (node_id : N) (inp : list byte) : res (ist * list byte) :=
@@ -364,13 +375,7 @@ Definition import_bin_node (k : kind) (slm : list N) (nlevels : N) (terminal : c
     e <- node_at st ei ;;
     let e_level := edge_level (st_store st) e in
     e <- (if ecompl then complement k e else Ok e) ;;
-    vid <- (match vc with
-            | CAbsolute => if N.of_nat (length slm) <=? vid then Err EVarRange else Ok vid
-            | _ =>
-              let min_level := N.min t_level e_level in
-              cms <- (if min_level =? level_max then Ok nlevels else lsm_lookup slm min_level) ;;
-              if cms <? vid then Err EVarRange else Ok (cms - vid)
-            end) ;;
+    vid <- resolve_vid slm nlevels vc vid t_level e_level ;;
     match nth_error slm (N.to_nat vid) with
     | None => Err EVarRange
     | Some level =>
